@@ -173,10 +173,15 @@ func (w *wal) read() (WALBatch, error) {
 	var ret WALBatch
 	reader := bufio.NewReader(w.reader)
 	tupleLenBuf := make([]byte, 4)
+	// size in bytes of the complete records read so far
+	var goodSize int64
 
 	for {
 		if n, err := io.ReadFull(reader, tupleLenBuf); err == io.EOF {
 			break
+		} else if err == io.ErrUnexpectedEOF {
+			// the process died while writing this record's length
+			return ret, w.dropIncompleteTail(goodSize)
 		} else if err != nil {
 			return ret, err
 		} else if n != len(tupleLenBuf) {
@@ -189,7 +194,10 @@ func (w *wal) read() (WALBatch, error) {
 		}
 
 		tupleBuf := make([]byte, tupleLen)
-		if n, err := io.ReadFull(reader, tupleBuf); err != nil {
+		if n, err := io.ReadFull(reader, tupleBuf); err == io.EOF || err == io.ErrUnexpectedEOF {
+			// the process died between writing this record's length and its body
+			return ret, w.dropIncompleteTail(goodSize)
+		} else if err != nil {
 			return ret, err
 		} else if n != tupleLen {
 			panic("bytes read differs from expected buffer length")
@@ -200,9 +208,20 @@ func (w *wal) read() (WALBatch, error) {
 			return ret, err
 		}
 		ret = append(ret, w)
+		goodSize += int64(len(tupleLenBuf) + tupleLen)
 	}
 
 	return ret, nil
+}
+
+// dropIncompleteTail cuts a partially written last record off the log, so that
+// the records read so far are replayed and later appends follow a complete
+// record instead of garbage.
+func (w *wal) dropIncompleteTail(size int64) error {
+	if f, ok := w.reader.(interface{ Truncate(size int64) error }); ok {
+		return f.Truncate(size)
+	}
+	return nil
 }
 
 func (w *wal) flush(batch WALBatch) error {
